@@ -191,6 +191,18 @@ CAppend(recs) == /\ DoAppend(recs)
 CAppendSet(recs) == DoAppendSet(recs) /\ now' = ClockAfter(recs) /\ UNCHANGED <<cc, pend>>
 CSetHW(h) == DoSetHW(h) /\ UNCHANGED <<cc, now, pend>>
 CNewLeaderEpoch(e) == DoNewLeaderEpoch(e) /\ UNCHANGED <<cc, now, pend>>
+\* Persistent readers (reader.go).  A clean does not touch the abstract reader
+\* state: a reader whose segment was replaced by compaction (or removed because
+\* nothing in it survived: cleanupEmptySegment marks it replaced) gets
+\* ErrSegmentReplaced on its next read and re-initialises at its own offset, so
+\* it goes on with the survivors at or after its position.  (A reader inside a
+\* segment that RETENTION deleted fails with ErrSegmentClosed; the bounded
+\* models only use persistent readers without retention limits.)  Not used
+\* while a clean is between snapshot and swap: the segment list still names
+\* the closed segments then and re-initialisation fails.
+CNewReader(r, s, c) == ~pend.on /\ DoNewReader(r, s, c) /\ UNCHANGED <<cc, now, pend>>
+CDrain(r) == ~pend.on /\ DoDrain(r) /\ UNCHANGED <<cc, now, pend>>
+
 \* Close + New with the same options (not while a clean is pending)
 CReopen == ~pend.on /\ DoReopen /\ UNCHANGED <<cc, now, pend>>
 
